@@ -359,6 +359,13 @@ func (c *Ctx) sortedBeforeSinkRule(fname string) {
 						continue
 					}
 				}
+				// the result of a module helper that sorts what it returns is in canonical order
+				if ce, ok := s.Rhs[i].(*ast.CallExpr); ok {
+					if g, _ := typeutil.Callee(info, ce).(*types.Func); g != nil && returnsSorted(c, g) {
+						events[o] = append(events[o], &ev{pos: s.Pos(), kind: "sort", what: "result of " + objName(g) + " (sorted before it is returned)"})
+						continue
+					}
+				}
 				if mentionsOperand(s.Rhs[i]) {
 					events[o] = append(events[o], &ev{pos: s.Pos(), kind: "fill", what: "assignment from an operand's list"})
 				}
@@ -908,4 +915,56 @@ func equalityExtra(c *Ctx) {
 	c.rule("symmetric-comparison", "every exit of list equality is decided by a condition invariant under swapping the operands (nil test of the argument, same-field length comparison, or comparison of two locals derived identically from one operand each)")
 	c.symmetricExitRule("sbom.(*NodeList).Equal")
 	c.floor("symmetric-comparison", 4, "length test, roots, edges, nodes")
+}
+
+// returnsSorted: a module function whose every return hands out a local slice that was sorted
+// (sort.Strings/Ints, slices.Sort) after the last statement that assigns or appends to it.
+func returnsSorted(c *Ctx, g *types.Func) bool {
+	if g.Pkg() == nil || !strings.HasPrefix(g.Pkg().Path(), modPath+"/") {
+		return false
+	}
+	fd, pk := c.P.FuncDecl(objName(g))
+	if fd == nil || fd.Body == nil {
+		return false
+	}
+	ok, n := true, 0
+	ast.Inspect(fd.Body, func(x ast.Node) bool {
+		rs, isRet := x.(*ast.ReturnStmt)
+		if !isRet || len(rs.Results) != 1 {
+			return true
+		}
+		n++
+		id, isId := rs.Results[0].(*ast.Ident)
+		if !isId {
+			ok = false
+			return true
+		}
+		ro := objOfInfo(pk, id)
+		var lastSort, lastWrite token.Pos
+		ast.Inspect(fd.Body, func(y ast.Node) bool {
+			switch s := y.(type) {
+			case *ast.CallExpr:
+				if f, _ := typeutil.Callee(pk.TypesInfo, s).(*types.Func); f != nil && len(s.Args) >= 1 && objOfInfo(pk, s.Args[0]) == ro {
+					switch f.FullName() {
+					case "sort.Strings", "sort.Ints", "slices.Sort":
+						if s.Pos() < rs.Pos() && s.Pos() > lastSort {
+							lastSort = s.Pos()
+						}
+					}
+				}
+			case *ast.AssignStmt:
+				for _, l := range s.Lhs {
+					if objOfInfo(pk, l) == ro && s.Pos() < rs.Pos() && s.Pos() > lastWrite {
+						lastWrite = s.Pos()
+					}
+				}
+			}
+			return true
+		})
+		if !lastSort.IsValid() || lastWrite > lastSort {
+			ok = false
+		}
+		return true
+	})
+	return ok && n > 0
 }
